@@ -65,6 +65,29 @@ PROPS = {
             {"run": "^TestC04$", "quick": 5000, "thorough": 30000},
         ],
     },
+    "C07": {
+        "level": "fault_enumeration",
+        "assumptions": [
+            "which damaged payloads are invalid is computed with compress/flate and golang/snappy + CRC-32 (the reference decompressor), never assumed",
+            "sites per file: all bits of magic, sync markers, snappy CRCs; compressed payload bits capped at 4096 per file (strided beyond); every record index for callback failure",
+            "exhaustive per file over the listed site kinds, sampled over files",
+        ],
+        "units": [
+            regress("C07"),
+            {"run": "^TestC07$", "quick": 200, "thorough": 400},
+        ],
+    },
+    "C08": {
+        "level": "fault_enumeration",
+        "assumptions": [
+            "files <= 4 KiB so that every cut position is evaluated; exhaustive per file (all cuts 0..len), sampled over files",
+            "expected records come from the reference block table and the decode of the intact file",
+        ],
+        "units": [
+            regress("C08"),
+            {"run": "^TestC08$", "quick": 300, "thorough": 800},
+        ],
+    },
     "C13": {
         "level": "exploration",
         "assumptions": [
